@@ -246,7 +246,7 @@ def history_worker(job):
                         pres = closure({x['i'] for x in cur if x['rel'] == '1'}, cur)     # tie free; the command itself is checked elsewhere
                 if ok and (pres is not None or a is pre[-1]):
                     hists.append((init,) + pre)
-    if quick:
+    if True:
         # curated longer histories: an artifact disappears, the index is refreshed or pruned by a clean, the artifact comes back
         for i in POOL:
             for mid in (('scan',), ('cleanrel',), ('cleanall',)):
